@@ -489,6 +489,15 @@ class InterpMixin(object):
             if isinstance(s.value, ast.Constant):
                 return
             if isinstance(s.value, ast.Call) and self.is_dropped_call(s.value, fr):
+                # the call itself (logging / print / sleep) is dropped, but its ARGUMENTS are still
+                # evaluated: an exception raised while formatting a log message is real behaviour.
+                # Only argument expressions outside the modelled subset fall back to A-LOG.
+                E2 = _engine_excs()
+                for a in list(s.value.args) + [k.value for k in s.value.keywords]:
+                    try:
+                        self.eval(a.value if isinstance(a, ast.Starred) else a, fr)
+                    except E2.Unsupported as u:
+                        self.havoc_notes.add("logging argument not evaluated (A-LOG): %s" % str(u)[:80])
                 return
             self.eval(s.value, fr)
         elif t is ast.Assign:
@@ -715,7 +724,7 @@ class InterpMixin(object):
             if it.d.rest or it.d.sym:
                 self.unsupported("for over an instance dict with unknown entries in %s needs an invariant" % fr.name)
             it = list(it.d.known.keys())
-        if isinstance(it, SSeq):
+        if isinstance(it, SSeq) or type(it).__name__ == "SEnumSeq":
             self.unsupported("for over a symbolic sequence in %s needs an invariant" % fr.name)
         items = self.iter_concrete(it)
         for x in items:
@@ -856,8 +865,18 @@ class InterpMixin(object):
     def ev_BoolOp(self, e, fr):
         is_and = isinstance(e.op, ast.And)
         if fr.spec:
-            # spec functions are total and pure: combine boolean operands without forking
-            vals = [self.eval(v, fr) for v in e.values]
+            # spec functions are total and pure: combine boolean operands without forking; an
+            # operand that is CONCRETELY decisive short-circuits (so `x is None or f(x)` is safe)
+            vals = []
+            for sub in e.values:
+                v = self.eval(sub, fr)
+                vals.append(v)
+                if isinstance(v, bool) and (v is (not is_and)):
+                    return v
+                if not isinstance(v, (bool, SBool)) and not is_sym(v):
+                    tv = self.truth(v)
+                    if tv is (not is_and):
+                        return v
             if all(isinstance(v, (bool, SBool)) for v in vals):
                 if any(isinstance(v, SBool) for v in vals):
                     from .values import bool_term
